@@ -22,7 +22,7 @@ import fcntl
 import vlib
 
 CACHE = os.path.join(vlib.VERIF, ".cache")
-PROPS = ["C01", "C03", "C06", "C12", "C13", "C14", "C15", "C17"]
+PROPS = ["C01", "C03", "C04", "C06", "C12", "C13", "C14", "C15", "C17"]
 
 
 def _tree_key(tier, seed):
@@ -268,7 +268,7 @@ def run_engine(ctx):
             res["fail"].append({"prop": pid, "pred": name, "h": h, "i": i, "data": x["e"].get("data", ""),
                                 "cmd": x["e"].get("cmd", ""), "t": x["e"]["t"], "server": bool(x["e"].get("haspfx")),
                                 "det": x.get("det", ""), "snap": x.get("snap", ""), "snapat": x.get("snapat", 0),
-                                "lines": x.get("lines", ""), "panics": x.get("panics", ""), "view": x.get("view", ""),
+                                "lines": x.get("lines", ""), "panics": x.get("panics", ""), "view": x.get("view", ""), "rids": x.get("rids", ""),
                                 "program": history_upto(h, i)})
             continue
         m = re.match(r'<<"CONF", "([\w-]+)", (\d+), (\d+)(.*)>>$', item, re.S)
@@ -384,7 +384,7 @@ def report(ctx, pid, extra_note=None):
         if sig in seen:
             continue
         seen.add(sig)
-        detail = {"ExpireExact": f["panics"], "PublicViewMatchesState": f.get("view", ""), "ReplicasAgree": f["det"], "SaveLoadInvisible": "cut after entry %s: %s" % (f["snapat"], f["snap"]),
+        detail = {"ReplyIdsArePositions": f.get("rids", ""), "ExpireExact": f["panics"], "PublicViewMatchesState": f.get("view", ""), "ReplicasAgree": f["det"], "SaveLoadInvisible": "cut after entry %s: %s" % (f["snapat"], f["snap"]),
                   "OneLine": f["lines"], "NoPanic": f["panics"]}.get(f["pred"], "")
         what = "%s false after entry %d of history %d: %r %s" % (f["pred"], f["i"], f["h"], f["data"][:80], detail[:300])
         ctx.violation(sig, what, {"program": f["program"], "how": "VERIF_IRC_IN=<file with {\"prog\": program}> go test -run TestVerifIRC (see checks/irc_common.py)"})
@@ -417,4 +417,19 @@ def report(ctx, pid, extra_note=None):
         "TLC evaluates IRCProps predicates on projected real states (harness/ircproj); the projection is "
         "cross-checked by the reflection-based canonical form used for replica/snapshot comparison",
     ]
+    return res
+
+
+def attach(ctx, pid):
+    """For checks of other engines whose property also depends on the state machine (C04: reply numbering):
+    evaluate the IRC-layer predicates filed under pid and add the engine's numbers under an irc_layer key."""
+    saved = dict(ctx.cov)
+    saved_samples = list(ctx.cov.get("samples", []))
+    res = report(ctx, pid)
+    mine = {k: ctx.cov[k] for k in ("events_validated", "traces_validated_against_impl", "model_transitions_replayed",
+                                    "fanout_probes_from_reached_states", "engine_cached") if k in ctx.cov}
+    ctx.cov.clear()
+    ctx.cov.update(saved)
+    ctx.cov["samples"] = saved_samples
+    ctx.cov["irc_layer"] = mine
     return res
